@@ -30,6 +30,7 @@ POOL = [
     (['print(2)  # xdoctest: +SKIP'], 'inline'),
     (['# xdoctest: +REQUIRES(module:no_such_module_xyz)'], 'block'),
     (['x + 1  # xdoctest: +ELLIPSIS'], 'inline'),
+    (['w = (1 +', '     2)  # xdoctest: +SKIP'], 'inline'),        # the directive on the continuation line
     (['z = (1 +  # xdoctest: +SKIP', '     2)'], 'inline'),
 ]
 
